@@ -30,6 +30,37 @@ theorem downScan_cases (nrows ncols idx fd : Int) (l : List Int) (j : Nat) (d : 
       · left; rfl
     · right; exact ⟨k, by omega, by simp; omega, h3⟩
 
+theorem downScan_not_mem (nrows ncols idx fd : Int) (l : List Int) (j : Nat) (d : Int) (h : fd ∉ l) :
+    downScan nrows ncols idx fd l j d = d := by
+  induction l generalizing j d with
+  | nil => rfl
+  | cons code rest ih =>
+    unfold downScan
+    rw [List.mem_cons, not_or] at h
+    rw [if_neg h.1]
+    exact ih _ _ h.2
+
+/-- the LAST position holding the code decides -/
+theorem downScan_last (nrows ncols idx fd : Int) (l : List Int) (j : Nat) (d : Int) (k : Nat)
+    (hk : l[k]? = some fd) (hlast : ∀ k', k < k' → l[k']? ≠ some fd) :
+    downScan nrows ncols idx fd l j d = neighbour nrows ncols idx (j + k) := by
+  induction l generalizing j d k with
+  | nil => simp at hk
+  | cons code rest ih =>
+    unfold downScan
+    cases k with
+    | zero =>
+      simp only [List.getElem?_cons_zero, Option.some.injEq] at hk
+      subst hk
+      rw [if_pos rfl, downScan_not_mem]
+      · rfl
+      · intro hmem
+        obtain ⟨i, hi⟩ := List.getElem?_of_mem hmem
+        exact hlast (i + 1) (by omega) (by simpa using hi)
+    | succ k =>
+      rw [ih (j + 1) _ k (by simpa using hk) (fun k' hk' => by simpa using hlast (k' + 1) (by omega))]
+      congr 1; omega
+
 theorem valid_toNat_lt {g : FlowGrid} (hg : WF g) {c : Int} (hv : validCell g.nrows g.ncols c = true) :
     c.toNat < g.flowdir.size := by
   rw [validCell_iff] at hv
@@ -474,6 +505,57 @@ theorem loopFn_range_spec {g : FlowGrid} {fuel : Nat} (hT : AllTerminate g fuel)
         rw [hzero, ihm.2 hd hjm']
         rfl
 
+/-- the wrapper `grid.accumulate` on a field of the grid's size: no error for any flow directions and
+any accepted cap; the values are `loopFn` started from the field itself (`accumulation = clone of the field`) -/
+theorem accumulate_rep {g : FlowGrid} (hg : WF g) (hr : 1 ≤ g.nrows) {m : Int} (hm : 1 ≤ capOf g m)
+    {field : Array α} (nodata : α) {F : Nat → α} (hF : Rep g.ntot.toNat field F) :
+    ∃ acc, accumulate g m nodata field = .ok acc ∧
+      Rep g.ntot.toNat acc (loopFn g nodata F (fuelOf (capOf g m)) (List.range g.ntot.toNat) F) :=
+  cAccumulate_spec hg hm hr hF hF
+
+/-- final value of a cell, given that every walk ends before the cap -/
+theorem final_value {g : FlowGrid} {fuel : Nat} (hT : AllTerminate g fuel) (nodata : α) (F A0 : Nat → α)
+    {c : Int} (hv : validCell g.nrows g.ncols c = true) :
+    loopFn g nodata F fuel (List.range g.ntot.toNat) A0 c.toNat =
+      if dn g c < 0 then nodata else pathFold g F fuel c (List.range g.ntot.toNat) (A0 c.toNat) := by
+  obtain ⟨h1, h2⟩ := lt_of_valid hv
+  have := loopFn_range_spec hT nodata F A0 c.toNat g.ntot.toNat (Nat.le_refl _)
+  rw [h2] at this
+  split
+  · rename_i hd; exact this.2 hd h1
+  · rename_i hd; exact this.1 (by omega)
+
 end Walk
+
+theorem allTerminate_of_B {g : FlowGrid} {fuel : Nat} (h : allTerminateB g fuel = true) : AllTerminate g fuel := by
+  intro c hv
+  obtain ⟨h1, h2⟩ := lt_of_valid hv
+  unfold allTerminateB at h
+  rw [List.all_eq_true] at h
+  have := h c.toNat (List.mem_range.2 h1)
+  rw [h2] at this
+  exact this
+
+/-! ### the pinned kernel (adds the value of the visited cell) agrees with the repaired one on uniform fields -/
+
+theorem walkPinned_eq_walk {α : Type} [Add α] {g : FlowGrid} (hg : WF g) {field : Array α} {v nodata : α}
+    (hF : Rep g.ntot.toNat field (fun _ => v)) {src : Nat} (hsrc : src < g.ntot.toNat) (fuel : Nat)
+    {cur : Int} (hv : validCell g.nrows g.ncols cur = true) (acc : Array α) :
+    walkPinned g field nodata fuel cur acc = walk g field nodata src fuel cur acc := by
+  induction fuel generalizing cur acc with
+  | zero => rfl
+  | succ fuel ih =>
+    unfold walkPinned walk
+    rw [downstream_ok hg hv]
+    simp only []
+    by_cases hd : dn g cur < 0
+    · rw [if_pos hd, if_pos hd]
+    · rw [if_neg hd, if_neg hd]
+      have hdv := dn_nonneg_valid hg hv (by omega)
+      rw [hF.2 _ (lt_of_valid hdv).1, hF.2 _ hsrc]
+      simp only []
+      cases addAt acc (dn g cur) v with
+      | error e => rfl
+      | ok acc' => exact ih hdv acc'
 
 end HydroVerif.C11
